@@ -17,12 +17,12 @@ def run(ck):
         raise vlib.InfraError("driver failed rc=%s %s" % (d["rc"], d["err"][-1500:]))
     ck.trace("childpos-calls", "Trace_Hier", "Trace.cfg", t,
              what="cellToChildPos for every ancestor resolution; childPosToCell at first/last/boundary/random/out-of-range "
-                  "positions for depths 0..15; leave-level strata under all pentagons; error contract", nchunks=32)
+                  "positions for depths 0..15; leave-level strata under all pentagons; error contract", nchunks=16)
     # the i-th element of cellToChildren has position i: checked on complete child lists (Rank(o[i]) = i-1)
     t2 = os.path.join(ck.tdir, "c04.ndjson")
     d = vlib.run_driver(drv, ["c04", "quick", ck.seed + 1, t2])
     if d["rc"] != 0:
         raise vlib.InfraError("driver failed rc=%s %s" % (d["rc"], d["err"][-1500:]))
     ck.trace("children-order", "Trace_Hier", "Trace.cfg", t2,
-             what="complete cellToChildren lists: Rank(o[i]) = i-1", nchunks=32)
+             what="complete cellToChildren lists: Rank(o[i]) = i-1", nchunks=16)
     ck.ev.assumptions += ["TLC 1.8 / JVM", "ndjson encodings (4-word indexes, base-16807 limbs for int64)"]
